@@ -57,7 +57,7 @@ RULE = ("one case = one run of the CLI (`mpq extract`) under strace on an archiv
         "mid-path `..`, sibling/canary targets, absolute path of the sandbox's abs/ dir spelled with /, \\, mixed, UNC-shaped \\\\verif\\scratch\\.. and //.., drive prefixes C:\\ C:/ C: , "
         "`...`, `.. `, `.`, doubled separators, CON, 300-char and unicode components, trailing `..` / `.` / separator; every prefix class again behind 1-2 leading `.` components whose separator is single, "
         "doubled or of the other kind, e.g. `.//<abs>/x`, `.\\\\<abs>\\x`) + seeded random names from the grammar components x separators x prefixes, "
-        "depth 1-6, 0-2 leading `.` components, up to 250 (quick) / 3000 (thorough) names. Each archive is run under every configuration of {--preserve-paths on/off} x {no patch chain: whole archive / names on the "
+        "depth 1-6, 0-2 leading `.` components, up to 320 (quick) / 3000 (thorough) names. Each archive is run under every configuration of {--preserve-paths on/off} x {no patch chain: whole archive / names on the "
         "command line x --threads 1/4 ; patch chain (--patch second archive overriding hostile and benign names and adding its own): whole / explicit}; output dir spelled relative or absolute, "
         "--skip-errors on/off, archive version 1/2 and zlib/none per file drawn from the seed. Oracle: snapshot diff of the whole outer tree + strace write-class calls resolved against the traced cwd; "
         "both must agree. A run is non-trivial iff the tool ran to an exit status and the leading benign files were found byte-identical in out/; distinct = distinct "
@@ -376,7 +376,7 @@ def random_spec(rng):
 def plan(tier, seed):
     """Deterministic list of archive plans: each = list of (global index, spec)."""
     thorough = tier == "thorough"
-    total = 3000 if thorough else 250
+    total = 3000 if thorough else 250 + 70   # the enumerated core (about 250 specs) plus seed-dependent ones
     per = 5 if thorough else 3
     rng = random.Random(0xC11 * 1000003 + int(seed))
     specs = core_specs()
